@@ -1,0 +1,82 @@
+//go:build verif
+
+package netstate
+
+// Contracts for package netstate. Comments only; read by /verif (build tag "verif").
+
+// Ghost position of every registered subscriber channel: the data-structure
+// invariant wf says each registered channel sits in exactly one bucket slot.
+//@ ghost var chIface (Array Int Int)
+//@ ghost var chMask (Array Int Int)
+//@ ghost var chIdx (Array Int Int)
+//@ ghost var closed (Array Int Bool)
+//@ ghost var mapIface (Array Int Int)
+
+//@ macro wfA(m) = m != nil && forall(i, "Int", has(m, i) ==> m[i] != nil && m[i] < brk && ghost.mapIface[m[i]] == i)
+//@ macro wfB(m) = forall(i, "Int", forall(k, "Int", forall(j, 0, len(m[i][k]), has(m, i) && has(m[i], k) ==> m[i][k][j] != nil && m[i][k][j] < brk && ghost.chIface[m[i][k][j]] == i && ghost.chMask[m[i][k][j]] == k && ghost.chIdx[m[i][k][j]] == j)))
+//@ macro wf(m) = wfA(m) && wfB(m)
+
+//@ func (*Watcher).Subscribe
+//@   opt guarded m mu [C19]
+//@   requires P1: wf(w.m) && lockGet(ghost.lockDepth, fieldaddr(w, "mu")) == 0
+//@   assigns everything
+//@   at return all: ghost.chIface = store3(ghost.chIface, result, iface) ; ghost.chMask = store3(ghost.chMask, result, changes) ; ghost.chIdx = store3(ghost.chIdx, result, len(w.m[iface][changes]) - 1) ; ghost.mapIface = store3(ghost.mapIface, w.m[iface], iface)
+//@   ensures E1 [C19]: result != nil && fresh(result) && chanCap(result) == 8
+//@   ensures E2 [C19]: has(w.m, iface) && w.m[iface] != nil
+//@   ensures E4 [C19]: has(w.m[iface], changes) && len(w.m[iface][changes]) >= 1
+//@   ensures E5 [C19]: w.m[iface][changes][len(w.m[iface][changes]) - 1] == result
+//@   ensures E3 [C19]: lockGet(ghost.lockDepth, fieldaddr(w, "mu")) == 0
+//@   ensures E6 [C19]: wfA(w.m)
+//@   ensures E7: wfB(w.m)
+//@   opt safety [C19]
+
+//@ func (*Watcher).notify
+//@   ghost local att Int
+//@   ghost local expect Int
+//@   opt guarded m mu [C19]
+//@   opt nonblocking [C19]
+//@   requires P1: wf(w.m) && lockGet(ghost.lockDepth, fieldaddr(w, "mu")) == 0
+//@   assigns ghost.lockDepth
+//@   loop 1 invariant N1 [C19]: lockGet(ghost.lockDepth, fieldaddr(w, "mu")) == 1 && wf(w.m)
+//@   loop 2 invariant N2 [C19]: 0 <= rangeindex2 + 1 && rangeindex2 + 1 <= len(changes) && lockGet(ghost.lockDepth, fieldaddr(w, "mu")) == 1 && wf(w.m) && interest == w.m[iface] && has(w.m, iface)
+//@   at loopenter 3: ghost.att = 0 ; ghost.expect = 0
+//@   loop 3 invariant N3 [C19]: ghost.att == ghost.expect && lockGet(ghost.lockDepth, fieldaddr(w, "mu")) == 1 && wf(w.m) && interest == w.m[iface] && has(w.m, iface) && change == changes[rangeindex2 + 1] && 0 <= rangeindex2 + 1 && rangeindex2 + 1 < len(changes)
+//@   at loopenter 4: ghost.att = 0 ; ghost.expect = len(v)
+//@   loop 4 invariant N4 [C19]: 0 <= rangeindex4 + 1 && rangeindex4 + 1 <= len(v) && ghost.att == rangeindex4 + 1 && ghost.expect == len(v) && bitand(k, change) != 0 && has(interest, k) && v == interest[k] && lockGet(ghost.lockDepth, fieldaddr(w, "mu")) == 1 && wf(w.m) && interest == w.m[iface] && has(w.m, iface) && change == changes[rangeindex2 + 1] && 0 <= rangeindex2 + 1 && rangeindex2 + 1 < len(changes)
+//@   at trysend ch(sv): assert S1 [C19]: sv == change && bitand(k, change) != 0 && ch == v[rangeindex4 + 1] && ghost.chIface[ch] == iface && ghost.chMask[ch] == k ; ghost.att = ghost.att + 1
+//@   ensures E1 [C19]: lockGet(ghost.lockDepth, fieldaddr(w, "mu")) == 0
+//@   opt safety [C19]
+//@   opt frame [C19]
+
+// Deferred clean-up of Watch: closes every registered channel exactly once.
+//@ func (*Watcher).Watch$1
+//@   opt guarded m mu [C19]
+//@   opt capture CAP
+//@   requires CAP [C19]: w != nil
+//@   requires P1: wf(w.m) && lockGet(ghost.lockDepth, fieldaddr(w, "mu")) == 0 && forall(c, "Int", !setHas(ghost.closed, c))
+//@   assigns ghost.lockDepth, ghost.closed
+//@   loop 1 invariant W1 [C19]: lockGet(ghost.lockDepth, fieldaddr(w, "mu")) == 1 && wf(w.m) && rangemap(1) == w.m && forall(c, "Int", setHas(ghost.closed, c) ==> setHas(visited(1), ghost.chIface[c]))
+//@   loop 2 invariant W2 [C19]: lockGet(ghost.lockDepth, fieldaddr(w, "mu")) == 1 && wf(w.m) && rangemap(1) == w.m && has(w.m, rangekey(1)) && rangemap(2) == w.m[rangekey(1)] && setHas(visited(1), rangekey(1)) && forall(c, "Int", setHas(ghost.closed, c) ==> (setHas(visited(1), ghost.chIface[c]) && (ghost.chIface[c] == rangekey(1) ==> setHas(visited(2), ghost.chMask[c]))))
+//@   loop 3 invariant W3 [C19]: 0 <= rangeindex + 1 && rangeindex + 1 <= len(vv) && lockGet(ghost.lockDepth, fieldaddr(w, "mu")) == 1 && wf(w.m) && rangemap(1) == w.m && has(w.m, rangekey(1)) && rangemap(2) == w.m[rangekey(1)] && has(rangemap(2), rangekey(2)) && vv == rangemap(2)[rangekey(2)] && setHas(visited(1), rangekey(1)) && setHas(visited(2), rangekey(2)) && forall(c, "Int", setHas(ghost.closed, c) ==> (setHas(visited(1), ghost.chIface[c]) && (ghost.chIface[c] == rangekey(1) ==> (setHas(visited(2), ghost.chMask[c]) && (ghost.chMask[c] == rangekey(2) ==> ghost.chIdx[c] <= rangeindex)))))
+//@   at close ch(c): assert C1 [C19]: !setHas(ghost.closed, ch) ; ghost.closed = setAdd(ghost.closed, ch)
+//@   ensures E1 [C19]: lockGet(ghost.lockDepth, fieldaddr(w, "mu")) == 0
+//@   opt safety [C19]
+//@   opt frame [C19]
+
+//@ func operStateChange
+//@   ensures E1 [C19]: result1 == (0 <= s && s <= 6)
+//@   ensures E2 [C19]: result1 ==> result0 == ite(s == 0, 8, ite(s == 1, 32, ite(s == 2, 2, ite(s == 3, 64, ite(s == 4, 4, ite(s == 5, 16, 1))))))
+//@   ensures E3 [C19]: !result1 ==> result0 == 0
+//@   opt safety [C19]
+
+//@ funcfield netstate.Watcher.watch(wctx, wnotify) (err)
+//@   assigns everything
+//@   opt preserves ghost.lockDepth, ghost.closed, ghost.chIface, ghost.chMask, ghost.chIdx, ghost.mapIface, heap(netstate.Watcher), key(MD_Int_Int), key(MV_Int_Int), key(MD_Int_Slice), key(MV_Int_Slice), key(M_chan___netstate.Change)
+
+// Watch: single use (a second call panics by design, so "first call" is the
+// precondition); the deferred clean-up closes the channels on every return.
+//@ func (*Watcher).Watch
+//@   requires P1 [C19]: w.watching != nil && star(w.watching) == 0 && w.watch != nil
+//@   requires P2: wf(w.m) && lockGet(ghost.lockDepth, fieldaddr(w, "mu")) == 0 && forall(c, "Int", !setHas(ghost.closed, c))
+//@   assigns everything
+//@   opt safety [C19]
